@@ -42,7 +42,7 @@ QUICK_BFS = [
     # the design's alphabet, <= 3 messages queued, send/pull interleavings, depth bound 9
     ("full-q3-d9", "depth=9 dlci=%s pay=%s noise=- ol=- maxq=3 cap=4000000" % (D_ALL, P_ALL), 25),
     # the design's alphabet with noise and over-long frames, <= 2 messages queued, to the fixpoint
-    ("full-q2-noise-ol", "depth=60 dlci=%s pay=%s noise=%s ol=2049,2050,4100 maxq=2 cap=1000000" % (D_ALL, P_ALL, NOISE), 35),
+    ("full-q2-noise-ol", "depth=60 dlci=%s pay=%s noise=%s ol=2049,4100 maxq=2 cap=1000000" % (D_ALL, P_ALL, NOISE), 25),
     # all 5 DLCIs, 2 payloads, <= 3 queued, noise and over-long frames, to the fixpoint
     ("d5-p2-q3-noise-ol", "depth=60 dlci=%s pay=1,7 noise=%s ol=2049,2050,4100 maxq=3 cap=400000" % (D_ALL, NOISE), 13),
     # 70 000-octet frame (longer than any 16-bit length) at every between-frames state of a small alphabet
@@ -51,7 +51,7 @@ QUICK_BFS = [
 THOROUGH_BFS = [
     ("full-q3", "depth=60 dlci=%s pay=%s noise=- ol=- maxq=3 cap=6000000" % (D_ALL, P_ALL), 55),
     ("full-q3-noise", "depth=60 dlci=%s pay=%s noise=%s ol=- maxq=3 cap=6000000" % (D_ALL, P_ALL, NOISE), 90),
-    ("full-q2-noise-ol", QUICK_BFS[1][1], 35),
+    ("full-q2-noise-ol3", "depth=60 dlci=%s pay=%s noise=%s ol=2049,2050,4100 maxq=2 cap=1000000" % (D_ALL, P_ALL, NOISE), 35),
     ("d2-pall-q3-noise-ol", "depth=60 dlci=5,9 pay=%s noise=%s ol=2049,2050,4100 maxq=3 cap=1500000" % (P_ALL, NOISE), 50),
     ("d3-pall-q3-noise-ol", "depth=60 dlci=4,9,127 pay=%s noise=%s ol=2049,2050,4100 maxq=3 cap=6000000" % (P_ALL, NOISE), 200),
     ("d5-p2-q3-noise-ol", QUICK_BFS[2][1], 13),
